@@ -166,9 +166,16 @@ def synthetic_cases():
             line = p + ident
             out.append((head + line + '\n', (nl + 1, len(line)), 'noncode:%r' % p))
     # attribute assignment lines
-    for line, col in (('k.bar = 1', 5), ('k.ba = 1', 4), ('k.bar = k.ba', 12), ('self = k; self.bar = 1', 18), ('k.bar, k.baz = 1, 2', 11)):
+    for line, col in (('k.bar = 1', 5), ('k.ba = 1', 4), ('k.bar = k.ba', 12), ('self = k; self.bar = 1', 18), ('k.bar, k.baz = 1, 2', 11),
+                      ('k.bar: int = 1', 5), ('k.ba: int = 1', 3), ('k.bar: int', 5), ('k.bar += 1', 5), ('for k.bar in []: pass', 9),
+                      ('with open(f) as k.bar: pass', 21), ('del k.bar', 9), ('k.bar = k.baz = 3', 13)):
         out.append((head + line + '\n', (nl + 1, col), 'attr-assign-line'))
         out.append((head + 'class M:\n    def m(self):\n        self.other = 1\n        self.bar = 2\n        return self.o\n', (nl + 4, 14), 'attr-assign-line'))
+    for body, pos in (('        self.total: int = 0\n        self.count: int\n        return self.to\n', (nl + 3, 18)),
+                      ('        self.total: int = 0\n        self.count: int\n        return self.to\n', (nl + 3, 16)),
+                      ('        self.total: int = 0\n        self.count: int\n        return self.to\n', (nl + 4, 18)),
+                      ('        self.total: int = 0\n        self.count: int\n        return self.to\n', (nl + 5, 22))):
+        out.append((head + 'class M:\n    def m(self):\n' + body, pos, 'annotated-attr-assign'))
     return out
 
 
